@@ -90,10 +90,12 @@ func Verif_C04_InProcUnary() {
 // Verif_C04_InProcStream: a server-streaming / bidi in-process call; the handler
 // sends up to k responses; the client receives until an error.
 func Verif_C04_InProcStream() {
-	deadline := zv.Bool("deadline-instead-of-cancel")
 	mtd := []string{"R", "S", "C"}[zv.Choose("method", 3)]
 	nResp := zv.Param("responses", 1)
-	behaviour := zv.Choose("handler", 3) // 0 send all then return nil, 1 send all, wait for ctx, return ctx.Err(), 2 fail Aborted after sending
+	behaviour := zv.Choose("handler", 5)
+	// the deadline variant differs from cancellation only in who ends the context;
+	// it is combined with the handlers that depend on the caller's context
+	deadline := behaviour <= 1 && zv.Bool("deadline-instead-of-cancel") // 0 send all then return nil, 1 send all, wait for ctx, return ctx.Err(), 2 fail Aborted after sending, 3/4 return a context error of its own
 	if zv.Bool("handler-sends-nothing") {
 		nResp = 0
 	}
@@ -128,6 +130,10 @@ func Verif_C04_InProcStream() {
 			return ss.Context().Err()
 		case 2:
 			return status.Error(codes.Aborted, "handler failed")
+		case 3:
+			return context.Canceled
+		case 4:
+			return context.DeadlineExceeded
 		}
 		return nil
 	}
@@ -176,6 +182,8 @@ func Verif_C04_InProcStream() {
 	case !isStatus:
 		zv.Reach("non-status-error")
 		zv.Fail("error-is-a-grpc-status")
+	case behaviour == 3 && st.Code() == codes.Canceled, behaviour == 4 && st.Code() == codes.DeadlineExceeded:
+		zv.Reach("handler-context-error")
 	case st.Code() == endCode:
 		zv.Reach("ended")
 		zv.Assert(ended, "cancellation-status-only-after-the-context-ended")
